@@ -147,7 +147,11 @@ type CheckResult struct {
 	NBounded    int
 	NBoundedOK  int
 	Selftest    []selftestResult
+	Skipped     []string
 }
+
+// forceThoroughOnly: the must-fail self-test runs the quick tier on overlays but must still reach "thorough-only" functions
+var forceThoroughOnly bool
 
 // runCheck verifies every contract tagged with prop. overlay replaces files (mutants for the self-test).
 func runCheck(root, prop, tier string, overlay map[string][]byte) *CheckResult {
@@ -209,6 +213,11 @@ func runCheck(root, prop, tier string, overlay map[string][]byte) *CheckResult {
 				}
 				if fc.Assumed {
 					res.Assumed = append(res.Assumed, pk.rel+"."+fc.Key+": "+fc.AssumedWhy)
+					continue
+				}
+				if fc.Opts["thorough-only"] != "" && tier != "thorough" && !forceThoroughOnly {
+					// obligations near the solvers' limit: verified in the thorough tier only (with its longer time limits)
+					res.Skipped = append(res.Skipped, pk.rel+"."+fc.Key+" (thorough tier only: "+fc.Opts["thorough-only"]+")")
 					continue
 				}
 				jobs = append(jobs, job{prog: prog, pk: pk, fc: fc})
@@ -469,6 +478,7 @@ func writeEvidence(res *CheckResult) {
 			"per_obligation":           res.Records,
 			"samples":                  samples,
 			"selftest_must_fail":       res.Selftest,
+			"skipped_in_this_tier":     res.Skipped,
 			"bounded_standins":         res.Bounded,
 			"bounded_obligations":      res.NBounded,
 			"bounded_discharged":       res.NBoundedOK,
